@@ -147,7 +147,7 @@ def terrain(rng, H, W):
     return kind, t
 
 
-def los_job(rng, H, W, terr, vr, vc, cell, obs, tgt, steps, tag):
+def los_job(rng, H, W, terr, vr, vc, cell, obs, tgt, steps, tag, dtypes=None):
     ew, ns = cell
     x0, y0 = rng.choice([0, 10, -7]), rng.choice([0, 50, -3])
     xs = [x0 + ew * c for c in range(W)]
@@ -161,8 +161,11 @@ def los_job(rng, H, W, terr, vr, vc, cell, obs, tgt, steps, tag):
         ox = min(max(ox + rng.choice([-0.3, 0.3]) * ew, min(xs)), max(xs))
         oy = min(max(oy + rng.choice([-0.3, 0.3]) * ns, min(ys)), max(ys))
     integral = all(float(v).is_integer() for row in terr for v in row)
-    dtype = rng.choice(["float64", "float64", "float32", "int64", "int32"]) if integral \
-        else rng.choice(["float64", "float32"])
+    if dtypes:
+        dtype = rng.choice(dtypes)
+    else:
+        dtype = rng.choice(["float64", "float64", "float32", "int64", "int32"]) if integral \
+            else rng.choice(["float64", "float32"])
     return {"kind": "los", "H": H, "W": W, "terrain": terr, "xs": xs, "ys": ys, "ox": ox, "oy": oy,
             "obs": obs, "tgt": tgt, "dtype": dtype, "vr": vr, "vc": vc, "ew": ew, "ns": ns,
             "steps": steps, "tag": tag}
@@ -185,6 +188,50 @@ def los_jobs(rng, nterr, steps, every_observer=True, sizes=SIZES):
         for (vr, vc) in observers:
             jobs.append(los_job(rng, H, W, terr, vr, vc, rng.choice(CELLS), rng.choice(OBS), rng.choice(TGT),
                                 steps, kind))
+    return jobs
+
+
+# ---- heights that are not exactly representable in single precision / beyond 2**24 (float64 and int64 rasters:
+# the function works in float64 throughout, so every elevation must keep its full double value)
+ODD_HEIGHTS = [0.1, 1.0 / 3.0, 1e-3, 2500.0001, -7.3, 123456.789]
+BIG_BASES = [2 ** 24, 2 ** 31, 10 ** 9]
+
+
+def precision_terrain(rng, H, W):
+    kind = rng.choice(["odd_plain", "odd_plateau", "odd_plateau", "bigbase", "bigbase", "tenths", "thirds"])
+    if kind == "odd_plain":                       # everything at one non-dyadic height: all visible at exactly 90
+        h = rng.choice(ODD_HEIGHTS)
+        t = [[h] * W for _ in range(H)]
+    elif kind == "odd_plateau":                   # an eye-level plain at a non-dyadic height with a few blocks on it
+        h = rng.choice(ODD_HEIGHTS)
+        t = [[h] * W for _ in range(H)]
+        for _ in range(rng.randrange(1, 3)):
+            r0, c0 = rng.randrange(H), rng.randrange(W)
+            step = rng.choice([0.1, 1.0 / 3.0, 1.0, 2.0, -0.7])
+            for r in range(r0, min(H, r0 + rng.randrange(1, 3))):
+                for c in range(c0, min(W, c0 + rng.randrange(1, 3))):
+                    t[r][c] = h + step
+    elif kind == "bigbase":                       # small integer relief on a base beyond single precision
+        b = rng.choice(BIG_BASES)
+        t = [[b + rng.choice([0, 0, 0, 1, 3, 1, 5]) for _ in range(W)] for _ in range(H)]
+    elif kind == "tenths":
+        t = [[rng.randrange(0, 31) * 0.1 for _ in range(W)] for _ in range(H)]
+    else:
+        t = [[rng.randrange(0, 31) / 3.0 for _ in range(W)] for _ in range(H)]
+    return kind, t
+
+
+def precision_jobs(rng, nterr, steps, per=5):
+    jobs = []
+    for i in range(nterr):
+        H, W = rng.choice([(3, 3), (4, 5), (5, 5), (5, 7), (7, 7)])
+        kind, terr = precision_terrain(rng, H, W)
+        observers = rng.sample([(r, c) for r in range(H) for c in range(W)], min(per, H * W))
+        for (vr, vc) in observers:
+            dt = ["float64", "float64", "int64"] if kind == "bigbase" else ["float64"]
+            obs = rng.choice([0, 0, 0, 1, 2.5, -1])
+            jobs.append(los_job(rng, H, W, terr, vr, vc, rng.choice(CELLS), obs, rng.choice(TGT), steps, kind,
+                                dtypes=dt))
     return jobs
 
 
@@ -398,7 +445,10 @@ def run(ctx):
         "the observer's eye level (all gradients exactly 0: not greater)",
         "vertical angle by via_formula: 90 + atan(dh/d) in degrees within 1e-3, side of level and 45/135 decided "
         "exactly by TLC from (dh, d^2)",
-        "terrains are multiples of 1/4 (exact in float32/float64), rasters have at least 2 rows and 2 columns "
+        "the model is evaluated on the exact rational values the raster holds; families: small multiples of 1/4 "
+        "(all dtypes), non-dyadic float64 heights (0.1, 1/3, 1e-3, 2500.0001, k/10, k/3) and integer relief on "
+        "bases 2**24, 2**31, 1e9 (float64 / int64); float32 rasters only with float32-exact heights (NumPy forms the "
+        "observer's eye height in the raster's dtype); rasters have at least 2 rows and 2 columns "
         "(the function derives the cell size from the coordinate spacing)",
         "the reading of 'spans the bearing' is the code's: strictly inside the cone enter corner .. exit corner "
         "in index space; 'nearer' is strictly smaller squared map distance",
@@ -420,10 +470,12 @@ def run(ctx):
     if thorough:
         tree_jobs += perm_jobs(rng, 6, limit=1500)
     tree_jobs += sim_jobs(ctx, rng, ctx.pick(80, 600), ctx.pick(40, 60), 12)
-    comp_jobs = los_jobs(rng, ctx.pick(12, 120), steps=False) + big_jobs(rng, ctx.pick(50, 500)) + \
-        big_jobs(rng, ctx.pick(10, 100), sizes=[(17, 17), (21, 21)])
+    comp_jobs = los_jobs(rng, ctx.pick(10, 120), steps=False) + big_jobs(rng, ctx.pick(45, 500)) + \
+        big_jobs(rng, ctx.pick(10, 100), sizes=[(17, 17), (21, 21)]) + \
+        precision_jobs(rng, ctx.pick(16, 200), steps=False)
     interp_jobs = los_jobs(rng, ctx.pick(40, 300), steps=True, every_observer=False) + \
-        los_jobs(rng, ctx.pick(4, 30), steps=True, every_observer=True, sizes=[(3, 3), (4, 5), (5, 5)])
+        los_jobs(rng, ctx.pick(4, 30), steps=True, every_observer=True, sizes=[(3, 3), (4, 5), (5, 5)]) + \
+        precision_jobs(rng, ctx.pick(8, 100), steps=True, per=4)
     results, errors = {}, {}
 
     def bg(name, fn):
